@@ -130,6 +130,8 @@ impl Check for C14 {
                     None => return,
                 };
                 let (notx, and, or, nor) = (ev!("not x"), ev!("x and y"), ev!("x or y"), ev!("x nor y"));
+                let (nn, nnn, xx_and, xx_or, xx_nor) = (ev!("not not x"), ev!("not not not x"), ev!("x and x"), ev!("x or x"), ev!("x nor x"));
+                let (not_and, not_or) = (ev!("not x and y"), ev!("not x or not y"));
                 law("`a is b` = `b is a`", eq_ab == eq_ba && as_bool(&eq_ab).is_some(), format!("{:?} vs {:?}", eq_ab, eq_ba));
                 let neg = |r: &Res| as_bool(r).map(|b| !b);
                 law("`a isnt b` = not `a is b`", as_bool(&ne_ab).is_some() && as_bool(&ne_ab) == neg(&eq_ab), format!("{:?} vs {:?}", ne_ab, eq_ab));
@@ -157,6 +159,10 @@ impl Check for C14 {
                     law("`a and b` = truthy(a) && truthy(b)", as_bool(&and) == Some(tx && ty), format!("{:?}", and));
                     law("`a or b` = truthy(a) || truthy(b)", as_bool(&or) == Some(tx || ty), format!("{:?}", or));
                     law("`a nor b` = not (a or b)", as_bool(&nor) == Some(!(tx || ty)), format!("{:?}", nor));
+                    law("`not not a` = truthy(a)", as_bool(&nn) == Some(tx), format!("{:?}", nn));
+                    law("`not not not a` = not truthy(a)", as_bool(&nnn) == Some(!tx), format!("{:?}", nnn));
+                    law("`a and a` = `a or a` = truthy(a), `a nor a` = not truthy(a)", as_bool(&xx_and) == Some(tx) && as_bool(&xx_or) == Some(tx) && as_bool(&xx_nor) == Some(!tx), format!("{:?} {:?} {:?}", xx_and, xx_or, xx_nor));
+                    law("`not a and b` = (not a) and b; `not a or not b` = not (a and b)", as_bool(&not_and) == Some(!tx && ty) && as_bool(&not_or) == Some(!(tx && ty)), format!("{:?} {:?}", not_and, not_or));
                 } else {
                     law("truthiness is observable through `if`", false, format!("{:?} {:?}", tx, ty));
                 }
